@@ -479,6 +479,28 @@ func CheckC07(e *Env) int {
 		gc := byID[pr.P.ID]
 		judgeGraph(rep, gc, pr)
 	}
+	// acyclic well-formed programs in which the planner's own table of visited types must agree
+	// with the provider map on type identity (a type met under two spellings, an argument
+	// reached under the other spelling): the planner re-queues a type it cannot find
+	tprogs := spellingTwinsFamily()
+	for _, pr := range RunPool(e, tprogs, PoolOpts{Name: "c07t", BatchSize: 64, AlsoCheck: true, ExtraEnv: []string{"VERIF_STEP_CAP=400"}}) {
+		fam := "well-formed/" + pr.P.Feat["family"]
+		switch {
+		case pr.PreBad != "":
+			rep.Incon = append(rep.Incon, "harness: "+pr.P.ID+": "+firstLine(pr.PreBad))
+		case pr.Incon != "":
+			rep.Incon = append(rep.Incon, pr.P.ID+": "+pr.Incon)
+		case pr.Crash != "":
+			clause := "crash"
+			if strings.Contains(pr.Crash, "VERIF-STEP-CAP") {
+				clause = "step cap exceeded: analysis did not terminate within its budget"
+			}
+			rep.Violate(pr.P.ID, Issue{Prop: "C07", Clause: clause, Witness: pr.Crash, Sig: "C07:" + clause + ":" + fam}, pr.P.Files(false), map[string]string{"wire_stderr.txt": pr.GenStderr})
+		default:
+			rep.Count("acyclic_wellformed_programs_terminated", 1)
+			rep.Held(fam + ";" + pr.P.Feat["cell"])
+		}
+	}
 	// structured scaling families, one wire invocation each, with hook step counts
 	scaling(e, rep)
 	rep.Assumptions = []string{"termination is claimed only as: every explored input finished within the hook step cap (400*(n+1)^2 loop iterations per activation) and within the linear budget 16*(V+E)+64 on the scaling families"}
